@@ -77,7 +77,7 @@ def load(src=None):
         if name in ("ginjax.ml.training",):
             g["int"] = lib.sint
         if name in ("ginjax.ml.stopping_conditions",):
-            g["float"] = lib.sfloat
+            g["float"] = lib.FloatShim
         g["print"] = lambda *a, **k: None
     out["_src"] = src
     _loaded = out
